@@ -3,7 +3,7 @@
    the segment sizes used by MultiHash.v are regenerated from SegmentedArray.h on every run (Gen_Segments.v),
    and all models are run against the real momo::DataTable / DataIndexes on every run. *)
 From Coq Require Import List ZArith Bool Permutation.
-From C07 Require Import TableSpec TableProofs NumModel MultiHash MultiHashProofs SegProofs IndexModel IndexProofs AtomicProofs RefineProofs ConsProofs ReachProofs.
+From C07 Require Import TableSpec TableProofs NumModel MultiHash MultiHashProofs SegProofs IndexModel IndexProofs AtomicProofs RefineProofs ConsProofs ReachProofs TableOps SelectionModel.
 Import ListNotations.
 
 (* For EVERY history of table operations starting from the empty table (adds, inserts, whole-row and
@@ -322,3 +322,103 @@ Theorem C07_reachable_segments_sorted :
   forall ct rs s m g, reach ct rs s -> In m (mhs s) -> In g (mgroups m) -> vals_ok (gvals g).
 Proof. exact reachable_segments_sorted. Qed.
 Print Assumptions C07_reachable_segments_sorted.
+
+(* DataIndexes::UpdateRaw(oldRaw, newRaw) on the whole index state (the operation whose rejector seeded change A attacked):
+   consistent with the rows after replacing old by new when accepted, with the old rows when refused or thrown. *)
+Theorem C07_update_row_preserves_consistency :
+  forall ord R ct fl rs rs' s old new,
+  (forall k, R k k = true) -> good ct rs s -> ~ In new rs -> In old rs -> length rs < max_vals ->
+  Permutation (rs ++ [new]) (old :: rs') ->
+  let '(s', o) := update_raw true true ord R ct fl s old new in
+  (o = Accepted /\ good ct rs' s') \/ (o <> Accepted /\ good ct rs s').
+Proof. exact update_raw_good. Qed.
+Print Assumptions C07_update_row_preserves_consistency.
+
+(* DataIndexes::FilterRaws on the whole index state: every unique hash and every group of every multi hash keeps
+   exactly the kept rows (and the segments are sorted again) *)
+Theorem C07_filter_raws_preserves_consistency :
+  forall ct rs keep s, good ct rs s -> length rs <= max_vals -> good ct (filter keep rs) (filter_raws keep s).
+Proof. exact filter_raws_good. Qed.
+Print Assumptions C07_filter_raws_preserves_consistency.
+
+(* DataTable's row-level operations as call sequences on mRaws and DataIndexes (TryAdd/TryInsert with mRaws.Reserve
+   BEFORE AddRaw, TryUpdate row, TryUpdate column, Remove/Extract), for EVERY allocation-failure schedule (Reserve throws
+   or not, any step of the index operation throws or not), order and R: either fully applied (rows as in TableSpec,
+   indexes consistent with them) or the table, the row contents and every unique hash are exactly what they were and
+   every multi hash holds the same rows. *)
+Theorem C07_table_op_atomic_under_allocation_failure :
+  (forall ord R f st n raw,
+     (forall k, R k k = true) -> tgood st -> ~ In raw (trows st) -> length (trows st) < max_vals -> n <= length (trows st) ->
+     let '(st', r) := t_insert ord R f st n raw in
+     tgood st' /\ ((r = TOk /\ trows st' = insert_at n raw (trows st)) \/ (r <> TOk /\ unchanged st st'))) /\
+  (forall ord R f st n new,
+     (forall k, R k k = true) -> tgood st -> ~ In new (trows st) -> n < length (trows st) -> length (trows st) < max_vals ->
+     let '(st', r) := t_update_row ord R f st n new in
+     tgood st' /\ ((r = TOk /\ trows st' = set_nth n new (trows st)) \/ (r <> TOk /\ unchanged st st'))) /\
+  (forall ord R f st n c v,
+     (forall k, R k k = true) -> tgood st -> n < length (trows st) -> c < length (tct st (nth n (trows st) 0%Z)) ->
+     length (trows st) <= max_vals ->
+     let '(st', r) := t_update_col ord R f st n c v in
+     tgood st' /\ trows st' = trows st /\ (r <> TOk -> unchanged st st')) /\
+  (forall R f st n keep_order,
+     (forall k, R k k = true) -> tgood st -> n < length (trows st) ->
+     let '(st', r) := t_remove R f st n keep_order in
+     tgood st' /\ ((r = TOk /\ trows st' = if keep_order then remove_nth n (trows st) else remove_unordered n (trows st)) \/
+                   (r <> TOk /\ trows st' = trows st /\ tct st' = tct st))).
+Proof. exact table_op_atomic_under_allocation_failure. Qed.
+Print Assumptions C07_table_op_atomic_under_allocation_failure.
+
+(* ... and the ordering introduced by seeded change B (AddRaw first, Reserve afterwards) is NOT atomic: witness *)
+Theorem C07_reserve_after_addraw_refuted :
+  exists ord R f st n raw,
+    (forall k, R k k = true) /\ tgood st /\ ~ In raw (trows st) /\
+    let '(st', r) := t_insert_reserve_late ord R f st n raw in
+    r = TThrown /\ trows st' = trows st /\
+    exists m, In m (mhs (tidx st')) /\ In raw (find_multi R (tct st') m (keyc (tct st') (mcols m) raw)).
+Proof. exact reserve_after_addraw_refuted. Qed.
+Print Assumptions C07_reserve_after_addraw_refuted.
+
+(* every table state reachable by TryAdd / TryInsert / TryUpdate (row, column) / Remove / Extract / Remove(range, filter) /
+   Assign / Clear / index creation / NewRow under any failure schedule is consistent ... *)
+Theorem C07_every_table_state_consistent : forall st, treach st -> tgood st.
+Proof. exact every_table_state_consistent. Qed.
+Print Assumptions C07_every_table_state_consistent.
+
+(* ... so in every reachable table state a query through any index equals the brute-force filter over the table rows *)
+Theorem C07_table_queries_equal_brute_force :
+  forall st, treach st ->
+  (forall R u k, (forall x, R x x = true) -> In u (uhs (tidx st)) ->
+     Permutation (find_unique R (tct st) u k) (filter (has_key (tct st) (ucols u) k) (trows st))) /\
+  (forall R m k, (forall x, R x x = true) -> In m (mhs (tidx st)) ->
+     Permutation (find_multi R (tct st) m k) (filter (has_key (tct st) (mcols m) k) (trows st))) /\
+  (forall R m k f g, (forall x, R x x = true) -> In m (mhs (tidx st)) -> (forall r, g r = has_key (tct st) (mcols m) k r && f r) ->
+     Permutation (select_via_multi R (tct st) m k f) (select_scan (trows st) g)) /\
+  (forall R u k f g, (forall x, R x x = true) -> In u (uhs (tidx st)) -> (forall r, g r = has_key (tct st) (ucols u) k r && f r) ->
+     Permutation (select_via_unique R (tct st) u k f) (select_scan (trows st) g)).
+Proof. exact table_queries_equal_brute_force. Qed.
+Print Assumptions C07_table_queries_equal_brute_force.
+
+(* DataSelection::Sort: the key sequence is the sorted permutation of the keys (lexicographic column compare) *)
+Theorem C07_selection_sort_is_sorted_permutation :
+  forall n ks, Forall (fun x => length x = n) ks -> Permutation (sort_keys ks) ks /\ ksorted (sort_keys ks).
+Proof. exact (fun n ks H => conj (sort_keys_perm ks) (sort_keys_sorted n ks H)). Qed.
+Print Assumptions C07_selection_sort_is_sorted_permutation.
+
+(* std::upper_bound's halving loop returns the partition point of any partitioned range ... *)
+Theorem C07_upper_bound_bisection_correct :
+  forall (p : list Z -> bool) d l k, partitioned p d l k -> ub_bisect (S (length l)) p d l 0 (length l) = k.
+Proof. exact (fun p d l k => ub_bisect_partition_point p d l k). Qed.
+Print Assumptions C07_upper_bound_bisection_correct.
+
+(* ... so on a sorted selection GetLowerBound / GetUpperBound (pvBinarySearch's two predicates) are the number of keys
+   below / not above the key, and between them lie exactly the keys equal to it *)
+Theorem C07_selection_bounds_are_equal_range :
+  forall n ks k, Forall (fun x => length x = n) ks -> length k = n -> ksorted ks ->
+  ub_bisect (S (length ks)) (lower_pred k) [] ks 0 (length ks) = lower_bound_count ks k /\
+  ub_bisect (S (length ks)) (upper_pred k) [] ks 0 (length ks) = upper_bound_count ks k /\
+  upper_bound_count ks k = lower_bound_count ks k + length (filter (fun x => zlist_eqb x k) ks).
+Proof.
+  exact (fun n ks k HL Lk Hs => conj (lower_bound_is_count n ks k HL Lk Hs)
+           (conj (upper_bound_is_count n ks k HL Lk Hs) (proj2 (bounds_delimit_equal_keys n ks k HL Lk)))).
+Qed.
+Print Assumptions C07_selection_bounds_are_equal_range.
